@@ -14,6 +14,7 @@ import (
 	"io"
 	"runtime/debug"
 	"strconv"
+	"strings"
 	"time"
 )
 
@@ -311,6 +312,12 @@ func (p *parserDoer) onEntries(labels [][]string, timestampsNS []int64,
 			_labels = append(_labels, lbl)
 		}
 		labels = _labels
+	}
+
+	// a JSON document cannot hold invalid UTF-8: make the stored label text and the fingerprint agree on it
+	for _, lbl := range labels {
+		lbl[0] = strings.ToValidUTF8(lbl[0], "\uFFFD")
+		lbl[1] = strings.ToValidUTF8(lbl[1], "\uFFFD")
 	}
 
 	dates := map[time.Time]bool{}
